@@ -180,8 +180,12 @@ def generate(rng, tier, profile='default'):
     for _ in range(rng.choice((0, 1, 1, 2))):
       src = list(series[rng.randrange(first, len(series))])
       how = rng.choice(('perm', 'rev', 'same_ends', 'same_mean', 'near_dup',
-                        'near_dup'))
-      if how == 'near_dup':
+                        'near_dup', 'affine'))
+      if how == 'affine' and all(not isinstance(v, str) for v in src):
+        # exactly affinely related: |correlation| = 1, required_impact raises
+        a, b = rng.choice((2, -2, 0.5, 4)), rng.choice((0, 3, -8))
+        src = [a * v + b for v in src]
+      elif how == 'near_dup':
         # equal up to a relative 1e-6 .. 1e-9 in a few points: what a tolerant
         # "unchanged" test (allclose, rounding) would confuse
         for i in rng.sample(range(n), rng.choice((1, 2, 3))):
@@ -238,7 +242,8 @@ def generate(rng, tier, profile='default'):
                     'p': rng.randrange(2)})
         cur_len[new] = lens[sidx]
       else:
-        ops.append({'op': 'snapshot', 'o': o, 'id': new})
+        ops.append({'op': 'snapshot', 'o': o, 'id': new,
+                    'how': rng.choice(('deepcopy', 'deepcopy', 'pickle'))})
         cur_len[new] = cur_len[o]
       objs.append(new)
     else:
@@ -549,7 +554,12 @@ def execute(desc):
       ev = [step, kind, op.get('o', 0), op['which']]
       absig.append((kind, op.get('o', 0), op['which'], arr is not None))
     elif kind == 'snapshot':
-      new = copy.deepcopy(obj)
+      if op.get('how') == 'pickle':
+        import pickle  # pylint: disable=g-import-not-at-top
+        new = pickle.loads(pickle.dumps(obj))
+        probe('snapshot_by_pickle')
+      else:
+        new = copy.deepcopy(obj)
       nt = _Tracked(new, None if t.y is None else t.y.copy(),
                     None if t.x is None else t.x.copy(), t.pk)
       nt.read_since_assign = set(t.read_since_assign)
